@@ -4,7 +4,7 @@ CHECK = dict(
     property='C16', level='exploration',
     families=[('hostile', 0.7), ('proofs', 0.1), ('stale', 0.2)],
     budget=dict(quick=55, thorough=900), max_runs=dict(quick=100_000, thorough=5_000_000),
-    rule=('in 30 % of the runs (families proofs, stale) well-formed requests of all kinds race with blocks, '
+    rule=('half of the runs configure DROP_CLIENT; server.version is mostly asked on a fresh session; requests refused by the server\'s own request time-out (slow history reads, REQUEST_TIMEOUT 2-5 s) must not add a subscription; in 30 % of the runs (families proofs, stale) well-formed requests of all kinds race with blocks, '
           'reorganisations, mempool changes and slow disk reads, and no reply may carry INTERNAL_ERROR; otherwise '
           'each evaluation = one simulated run of the real server with a populated index, live good clients with '
           'subscriptions and a mempool, in which a hostile client sends 60-300 requests one at a time through the '
